@@ -35,6 +35,12 @@ for f in sorted(glob.glob(os.path.join(V, "selftest", "patches", "revert_*.diff"
         if ONLY and ONLY not in n:
             continue
         jobs.append((n, f, p))
+if ONLY and os.path.exists(os.path.join(V, "seeded", "MATRIX.tsv")):
+    # partial run: keep the rows of the other seeds
+    for l in open(os.path.join(V, "seeded", "MATRIX.tsv")).read().split("\n")[1:]:
+        c = l.split("\t")
+        if len(c) >= 4 and ONLY not in c[0]:
+            rows[(c[0], c[1])] = (c[2], c[3])
 q = queue.Queue()
 for i, j in enumerate(jobs):
     q.put((i, j))
@@ -46,7 +52,7 @@ def write():
         f.write("seed\tproperty_check\trc\tfirst_line\n")
         for (name, prop) in sorted(rows, key=lambda k: (k[0].startswith("revert"), k)):
             f.write("%s\t%s\t%s\t%s\n" % (name, prop, rows[(name, prop)][0], rows[(name, prop)][1]))
-        if len([k for k in rows if rows[k][0] != "not-claimed"]) >= len(jobs):
+        if all((j[0], j[2]) in rows for j in jobs):
             f.write("DONE\n")
 
 
